@@ -8,7 +8,7 @@ ID = "C10"
 MANIFEST = (
     "exploration",
     "sanitizers on the real executable: AddressSanitizer+UBSan (gcc, _GLIBCXX_SANITIZE_VECTOR) and valgrind memcheck (uninitialised-value decisions) on /repo/main.cpp run end to end over generated scenario files, plus the same scenarios and operation-level histories through the monitored harness under ASan (+_GLIBCXX_ASSERTIONS)",
-    "Zero sanitizer / memcheck reports with a repository frame on every execution of the run: generated scenarios (single dividing cell, adhering grids, overlapping pairs of different classes, nucleus in cell, cell in ECM, lumen among cells, mixed population with removal, removal of a cell its neighbours are coupled to (list order independent of the arrangement, very different mesh sizes), polygonal cubes with initial triangulation) x thread counts {1,4,16} x 40-300 iterations with growth, division, removal, remeshing with/without swaps, file output and statistics, executed (a) by the unmodified main from parsing to the destructors at the end of main under ASan+UBSan, (b) by main under valgrind memcheck (reduced set), (c) through the monitored solver under ASan so that the evidence lists which stages were reached (iterations, splits, merges, swaps, divisions, removals, contact pairs), and (d) remeshing histories under ASan with libstdc++ assertions. Exploration is the right level: memory safety of the reached paths is decided exactly by the instrumentation; reach comes from workload diversity.",
+    "Zero sanitizer / memcheck reports with a repository frame on every execution of the run: generated scenarios (single dividing cell, adhering grids, overlapping pairs of different classes, nucleus in cell, cell in ECM, lumen among cells, mixed population with removal, removal of a cell its neighbours are coupled to (list order independent of the arrangement, very different mesh sizes), a tissue drifting through the voxels of the contact grid, polygonal cubes with initial triangulation) x thread counts {1,4,16} x 40-300 iterations with growth, division, removal, remeshing with/without swaps, file output and statistics, executed (a) by the unmodified main from parsing to the destructors at the end of main under ASan+UBSan, (b) by main under valgrind memcheck (reduced set), (c) through the monitored solver under ASan so that the evidence lists which stages were reached (iterations, splits, merges, swaps, divisions, removals, contact pairs), and (d) remeshing histories under ASan with libstdc++ assertions. Exploration is the right level: memory safety of the reached paths is decided exactly by the instrumentation; reach comes from workload diversity.",
     "Red-zone tools miss intra-object and far out-of-bounds accesses and reuse of reallocated memory; paths no scenario drives are not covered (the evidence lists stage counters); leak detection is off (deliberate shared_ptr cycles); data races are C15's subject, but a race that corrupts memory under ASan is reported here.",
     "DESIGN.md section 3, C10",
 )
@@ -152,7 +152,7 @@ def run(tier, seed, t0):
         "main_memcheck_runs": (sum(v for k, v in m.bins.items() if k.startswith("cases@main/memcheck")), n_vg),
         "main_iterations": (m.bins.get("main_iterations", 0), 20 * n_main),
         "simrun_iterations": (m.bins.get("iterations", 0), 30 * n_sim), "splits": (m.bins.get("splits", 0), 200), "merges": (m.bins.get("merges", 0), 200),
-        "divisions": (m.bins.get("divisions", 0), 5), "removals": (m.bins.get("removals", 0), 2), "removal_among_coupled_cells": (m.bins.get("family:removal_among_coupled_cells", 0), 3), "contact_pairs": (m.bins.get("contact_pairs", 0), 10000),
+        "divisions": (m.bins.get("divisions", 0), 5), "removals": (m.bins.get("removals", 0), 2), "removal_among_coupled_cells": (m.bins.get("family:removal_among_coupled_cells", 0), 3), "drifting_tissues": (m.bins.get("family:drifting_adhering_grid", 0), 3), "contact_pairs": (m.bins.get("contact_pairs", 0), 10000),
         "runs_with_initial_triangulation": (m.bins.get("with_initial_triangulation", 0), 2),
     }
     return R.finish(ID, tier, seed, m,
